@@ -174,6 +174,30 @@ impl Fam {
         }
     }
     /// a query point: structure-derived or from the family with an extended range
+    /// a query position for the classes that are decided by exact predicates and coordinate
+    /// comparisons only (line iterator, constraint queries, rectangles): now and then a coordinate
+    /// that is exactly zero is replaced by a small non-zero value of very different magnitude
+    /// (2^-60, the smallest valid coordinate 2^-142, or far below it: query positions are not
+    /// validated, and sums / products with such values round or underflow)
+    pub fn qpoint_tiny(&self, rng: &mut Rng, ctx: &Ctx) -> (f64, f64) {
+        let (mut x, mut y) = self.qpoint(rng, ctx);
+        if rng.chance(80) {
+            let tag = ctx.tri.tag();
+            let tiny = |rng: &mut Rng| -> f64 {
+                let k = if tag == 'd' { *rng.pick(&[60, 60, 142, 200, 400, 700, 1000, 1074]) } else { *rng.pick(&[30, 30, 100, 130, 142, 149]) };
+                let s = if rng.chance(500) { 1.0 } else { -1.0 };
+                s * 2f64.powi(-k)
+            };
+            if x == 0.0 {
+                x = tiny(rng);
+            }
+            if y == 0.0 && rng.chance(700) {
+                y = tiny(rng);
+            }
+        }
+        (x, y)
+    }
+
     pub fn qpoint(&self, rng: &mut Rng, ctx: &Ctx) -> (f64, f64) {
         let tag = ctx.tri.tag();
         let nv = ctx.tri.nv();
@@ -554,8 +578,8 @@ fn query(rng: &mut Rng, ctx: &mut Ctx, fam: &Fam, class: &str) {
             ctx.op(vec![s("hull")]);
         }
         "line" => {
-            let mut p = fam.qpoint(rng, ctx);
-            let mut q = if rng.chance(60) { p } else { fam.qpoint(rng, ctx) };
+            let mut p = fam.qpoint_tiny(rng, ctx);
+            let mut q = if rng.chance(60) { p } else { fam.qpoint_tiny(rng, ctx) };
             // end points exactly in the interior of an existing edge (mid or quarter point; exact
             // on the small-integer families): a segment that ends on the boundary of the face it
             // has just entered, or starts on an edge
@@ -608,11 +632,11 @@ fn query(rng: &mut Rng, ctx: &mut Ctx, fam: &Fam, class: &str) {
             ctx.op(vec![s(op), ctok(tag, lo.0), ctok(tag, lo.1), ctok(tag, hi.0), ctok(tag, hi.1)]);
         }
         "rect" => {
-            let p = fam.qpoint(rng, ctx);
+            let p = fam.qpoint_tiny(rng, ctx);
             let q = match rng.below(10) {
                 0 => p,
-                1 => (p.0, fam.qpoint(rng, ctx).1),
-                _ => fam.qpoint(rng, ctx),
+                1 => (p.0, fam.qpoint_tiny(rng, ctx).1),
+                _ => fam.qpoint_tiny(rng, ctx),
             };
             let (lo, hi) = if rng.chance(80) {
                 (p, q)
@@ -669,8 +693,8 @@ fn query(rng: &mut Rng, ctx: &mut Ctx, fam: &Fam, class: &str) {
         }
         "conqp" => {
             if ctx.tri.kind() == "cdt" {
-                let mut p = fam.qpoint(rng, ctx);
-                let mut q = fam.qpoint(rng, ctx);
+                let mut p = fam.qpoint_tiny(rng, ctx);
+                let mut q = fam.qpoint_tiny(rng, ctx);
                 if nv >= 3 && rng.chance(350) {
                     // a segment that stays outside of the hull: from a corner region of the
                     // bounding box a quarter of the way towards a point of the box
